@@ -98,6 +98,10 @@ def run(ctx, col, tier):
     repo = ctx.repo
     from ..rules import stateless as _stateless_memo
     _stateless_memo.run_memo(ctx, col)
+    from ..rules import smalllints as _small
+    _small.run_rounds(ctx, col, ('swcgeom.core.swc_utils.subtree', 'swcgeom.core.swc_utils.base', 'swcgeom.core.swc_utils.normalizer', 'swcgeom.core.tree_utils', 'swcgeom.core.tree_utils_impl'))
+    from ..rules import rowslice as _rowslice
+    _rowslice.run(ctx, col, ('swcgeom.core.tree', 'swcgeom.core.tree_utils', 'swcgeom.core.tree_utils_impl', 'swcgeom.core.swc_utils.base', 'swcgeom.core.swc_utils.subtree', 'swcgeom.core.swc_utils.normalizer', 'swcgeom.transforms.tree'))
     from ..rules import rootpos as _rootpos
     _rootpos.run(ctx, col, ('swcgeom.core.tree_utils', 'swcgeom.core.tree_utils_impl', 'swcgeom.core.tree', 'swcgeom.transforms.tree', 'swcgeom.transforms.path', 'swcgeom.core.swc_utils.subtree'))
     col.rule("R-PURE", "ownership abstract interpretation of each discovered tree->tree "
